@@ -145,7 +145,9 @@ func runTool(dir string, stdoutTo *bytes.Buffer, args ...string) (int, string, e
 	case <-done:
 	case <-time.After(60 * time.Second):
 		cmd.Process.Kill()
-		return -1, errb.String(), fmt.Errorf("tool did not finish within 60 s")
+		<-done
+		// (inputs here are a few hundred KiB: a tool still running after a minute does not come to an end)
+		return -1, errb.String(), hx.Failf("tool-terminates", "%v was still running after 60 s", args[:min(len(args), 2)])
 	}
 	return cmd.ProcessState.ExitCode(), errb.String(), nil
 }
